@@ -367,7 +367,10 @@ PROPS["C16"] = dict(
          "PUSH/DEALER/REQ/SUB/ROUTER/PULL with 1..3 connects to tcp ports / ipc paths nobody listens on (RECONNECT_IVL 10/50/100 ms), optionally "
          "one live peer, closed together with the last connect() (join!), right after it, 0..3 ms or 5..120 ms later, on a current-thread and a "
          "4-worker runtime; then listeners are started on the old targets: nobody may connect; within 3 s live actors and registered sockets "
-         "must be 0 and tokio alive tasks back to the pre-case value; send() on the closed socket and term() return promptly. (thorough only) the chaos and attachrace "
+         "must be 0 and tokio alive tasks back to the pre-case value; send() on the closed socket and term() return promptly. (manysockets) one "
+         "context holding 300 / 420 / 600 (270, 1000) idle sockets of all eight types, optionally some bound to inproc names and one live inproc "
+         "PUSH/PULL pair: term() must return promptly (every stopping socket publishes on the 256-slot context-wide bus, so a socket can miss the "
+         "termination request), no handle may still answer, live actors 0, no task left. (thorough only) the chaos and attachrace "
          "layers again under ThreadSanitizer (all wall-clock bounds x10), whose 10x slowdown widens the windows between the actors; TSan reports "
          "are attributed by sanparse.py.",
     assumptions=["task/fd baselines are taken inside the same runtime just before each history",
@@ -376,6 +379,7 @@ PROPS["C16"] = dict(
     + [dict(bin="c16", args=["--only", "rpqclose"], timeout=300, name="c16-rpqclose")]
     + sharded("c16", _n(tier, 2, 4), 900, extra=["--only", "attachrace"], name="c16-attachrace")
     + sharded("c16", _n(tier, 4, 8), _n(tier, 600, 1800), extra=["--only", "closeonly"], name="c16-closeonly")
+    + sharded("c16", _n(tier, 3, 5), 600, extra=["--only", "manysockets"], name="c16-manysockets")
     + ([dict(bin="c16", flavour="tsan", args=["--tier", "quick", "--shard", "%d/4" % i], timeout=1500, name="c16-tsan-%d" % i) for i in range(4)]
        + [dict(bin="c16", flavour="tsan", args=["--tier", "quick", "--only", "attachrace", "--cases", 120, "--shard", "%d/4" % i], timeout=1500, name="c16-tsan-attachrace-%d" % i) for i in range(4)]
        if tier == "thorough" else []),
